@@ -23,12 +23,15 @@ class Connection:
     return self._gfa
 
   def _mentions_own_name(self):
+    if not isinstance(self.name, str):
+      # (the line has no identifier of its own)
+      return False
     for k in self.__class__.REFERENCE_FIELDS:
       value = self.get(k)
       for item in (value if isinstance(value, list) else [value]):
         if isinstance(item, (gfapy.OrientedLine, gfapy.Line)):
           item = item.name
-        if isinstance(item, str) and item == str(self.name):
+        if isinstance(item, str) and item == self.name:
           return True
     return False
 
